@@ -44,7 +44,7 @@ PRETEXTS = [
     ("# Rule: ", "# RULE: "),
     ("# rule: ", "# Rule: info: "),
 ]
-NAME_ALPHA = ["abcdefghijklmnopqrstuvwxyz0123456789", " ", "éüß€日本𝔘", ".-_@!?()[]{}*+=/", "ABCXYZ", "#:;,\"\\'|<>~", "e\u0301\u212b\u2126\ufb01"]
+NAME_ALPHA = ["abcdefghijklmnopqrstuvwxyz0123456789", " ", "éüß€日本𝔘", ".-_@!?()[]{}*+=/", "ABCXYZ", "#:;,\"\\'|<>~", "e\u0301\u212b\u2126\ufb01\u200b\u200d\u202e\ufeff\u00a0\U0001f600\u0130\u00df"]
 
 
 def gen_label(f, label, minlen=1, maxlen=10):
